@@ -86,7 +86,8 @@ def validate_trace(ctx, trace, timeout, heap):
         ev = events[r["l"] - 1]
         if r["why"].startswith("harness_"):
             raise vlib.Inconclusive("the recording itself is wrong (%s) on event %d: %s" % (r["why"], r["l"], str(short(ev))[:400]))
-        ctx.violation("C19." + r["why"], "%s/%s/trace" % (ev["kind"], ev["sc"]),
+        mode = ("sparse/" if ev["sp"] else "plain/") if ev["kind"] == "idx" else ""
+        ctx.violation("C19." + r["why"], "%s/%s%s/trace" % (ev["kind"], mode, ev["sc"]),
                       "rejected by KmerTrace (%s): %s" % (r["why"], describe(ev, r["why"])), ev)
     return events, rejects
 
@@ -145,7 +146,7 @@ def main(ctx):
         ctx.expect_vacuity("class " + need, ctx.classes.get(need, 0))
     # T ---------------------------------------------------------------------------------------
     trace = ctx.path("trace.ndjson")
-    n, graphs, maxlen = (1500, 480, 500) if thorough else (150, 64, 200)
+    n, graphs, maxlen = (3000, 800, 500) if thorough else (150, 64, 200)
     ctx.harness(["record", "C19", "--out", trace, "--n", n, "--opt", "maxlen=%d" % maxlen, "--opt", "graphs=%d" % graphs],
                 timeout=900)
     events, rejects = validate_trace(ctx, trace, 1500, None)
